@@ -2,9 +2,11 @@
 """
 Structure of the verification pipeline, read from /repo/src/verifylib.rs on every run (C08, C15, C06, C13):
 
-  * the ordered list of stage calls in the body of `in_toto_verify` - callee, first argument, whether
+  * the ordered list of stage calls reached from the body of `in_toto_verify` - callee, first argument, whether
     the result is propagated with `?` (or is the tail expression), and the nesting depth of the call
-    (0 = straight-line code of the function body: not inside an `if`, `match` arm, loop or closure);
+    (0 = straight-line code of the function body: not inside an `if`, `match` arm, loop or closure); a call to a
+    function of verifylib.rs that is not a stage of the model (a helper) is replaced by the stage calls of its
+    body, so that moving stages into a helper - or adding a helper that calls none - leaves the sequence as it is;
   * the number of `return` statements in that body and what guards them;
   * which pipeline functions `verify_sublayouts` calls (the recursion into `in_toto_verify`).
 
@@ -87,21 +89,45 @@ def calls(body):
     return out
 
 
+# the stages of the model (Model/Verify.lean); every other function of verifylib.rs is a helper: a call to a
+# helper stands for the stage calls in its body (extracting a few stages into a function, or a pure helper
+# that calls no stage, does not change the flattened sequence)
+STAGES = {"verify_layout_signatures", "verify_layout_expiration", "load_links_for_layout", "verify_link_signature_thresholds",
+          "verify_sublayouts", "verify_all_steps_command_alignment", "verify_threshold_constraints", "reduce_chain_links",
+          "verify_all_item_rules", "run_all_inspections", "get_summary_link", "in_toto_verify"}
+
+
+def flat(name, depth0=0, prop0=True, seen=()):
+    """the stage calls reached from the body of `name`, in order, helpers expanded in place"""
+    body = body_of(name)
+    if body is None or name in seen:
+        return []
+    cs = calls(body)
+    # (the last call of a body is its tail expression when nothing but closing braces follows it)
+    if cs:
+        last = cs[-1]
+        tailtext = body[body.rfind(last[0]):]
+        if tailtext.strip().endswith(")") and tailtext.count(";") == 0:
+            cs[-1] = (last[0], last[1], True, last[3])
+    out = []
+    for callee, first, prop, depth in cs:
+        if callee in STAGES:
+            out.append((callee, first, prop and prop0, depth0 + depth))
+        else:
+            out.extend(flat(callee, depth0 + depth, prop and prop0, seen + (name,)))
+    return out
+
+
 main = body_of("in_toto_verify")
 sub = body_of("verify_sublayouts")
 if main is None or sub is None:
     print("pipeline.py: in_toto_verify / verify_sublayouts not found in src/verifylib.rs", file=sys.stderr)
-    stages, returns, subcalls = [], [], []
+    stages, returns, substages = [], [], []
 else:
-    stages = calls(main)
-    # the last call is the tail expression when nothing but whitespace follows it
-    if stages:
-        last = stages[-1]
-        tailtext = main[main.rfind(last[0]):]
-        if re.fullmatch(r"%s\s*\((?:[^()]|\([^()]*\))*\)\s*" % last[0], tailtext.strip() + "") or tailtext.strip().endswith(")"):
-            stages[-1] = (last[0], last[1], True, last[3])
+    stages = flat("in_toto_verify")
     returns = [" ".join(m.group(0).split())[:60] for m in re.finditer(r"\breturn\b[^;]*;", main)]
-    subcalls = [c[0] for c in calls(sub)]
+    substages = flat("verify_sublayouts")
+subcalls = [c[0] for c in substages]
 
 
 def lit(s):
@@ -119,7 +145,10 @@ with open(os.path.join(outdir, "Pipeline.lean"), "w") as f:
     f.write("\n]\n\n")
     f.write("/-- the `return` statements in the body of `in_toto_verify` -/\n")
     f.write("def pipelineReturns : List String := [" + ", ".join(lit(r) for r in returns) + "]\n\n")
-    f.write("/-- calls of verifylib.rs functions inside `verify_sublayouts`, in order -/\n")
+    f.write("/-- calls of pipeline functions reached from `verify_sublayouts`, in order -/\n")
     f.write("def sublayoutCalls : List String := [" + ", ".join(lit(c) for c in subcalls) + "]\n\n")
+    f.write("def sublayoutStages : List StageCall := [\n")
+    f.write(",\n".join("  { callee := %s, firstArg := %s, propagates := %s, depth := %d }" % (lit(a), lit(b), "true" if c else "false", d) for a, b, c, d in substages))
+    f.write("\n]\n\n")
     f.write("end InToto.Generated\n")
 print("pipeline.py: %d stage calls, %d returns, sub-layout calls %s" % (len(stages), len(returns), subcalls))
